@@ -5,10 +5,21 @@
 #include "verif_harness.h"
 #include "snoopy.h"
 #include "configuration.h"
+#ifdef VERIF_NATIVE
+#include <string.h>
+static inline snoopy_configuration_t nondet_cfg(void){ snoopy_configuration_t c; memset(&c, 0, sizeof c); return c; }   /* native replay: fields are set explicitly below */
+#else
 snoopy_configuration_t nondet_cfg(void);
+#endif
+#ifdef VERIF_CFG_CONCRETE
+/* content-level (pack C) runs: symbolic allocation sizes combined with byte loops exhaust memory in cbmc (probed), so the
+   previously stored strings are 4-byte heap objects with arbitrary content (their content is never the subject there) */
+static inline char *verif_heap_string(void){ char *p = malloc(4); __CPROVER_assume(p != 0); p[0] = nondet_char(); p[1] = nondet_char(); p[2] = nondet_char(); p[3] = 0; return p; }
+#else
 static inline char *verif_heap_string(void){
   size_t n = nondet_size_t(); __CPROVER_assume(n >= 1 && n <= 1024);   /* INI values are < 1024 bytes */
   char *p = malloc(n); __CPROVER_assume(p != 0); p[n - 1] = 0; return p; }
+#endif
 /* non-owned values reachable in the code: the compiled-in literal; for output_arg also "" (parseValue_output, value without ':') */
 #define VERIF_RI_FIELD(c, X, FLAG, lit) do { if (nondet_bool()) { (c)->X = verif_heap_string(); (c)->FLAG = SNOOPY_TRUE; } \
       else { (c)->FLAG = SNOOPY_FALSE; (c)->X = (lit); } } while (0)
